@@ -221,7 +221,9 @@ impl Compactor {
 		guard: &mut HiddenTablesGuard,
 	) -> Result<()> {
 		let mut manifest = self.options.level_manifest.write()?;
+		verif_yield!("lk.compact.manifest");
 		let _imm_guard = self.options.immutable_memtables.write();
+		verif_yield!("lk.compact.immutable");
 
 		// Check for table ID collision if adding a new table
 		if let Some(ref table) = new_table {
